@@ -109,7 +109,8 @@ example : ∀ u ∈ [(⟨0, ⟨.healthy, 1, 1⟩⟩ : Update)],
 
 /-! ## 4. nothing moves backwards -/
 
-/-- the Lamport clock never decreases, under every operation -/
+/-- the Lamport clock never decreases, under every operation (merge, the local events, and the
+    public `tick` / `sync_time`) -/
 theorem clock_monotone (s : State) (o : Op) : s.clock ≤ (apply s o).clock := by
   cases o with
   | merge b => simp only [apply]; rw [merge_clock]; cases maxTs b <;> simp only [] <;> omega
@@ -118,6 +119,8 @@ theorem clock_monotone (s : State) (o : Op) : s.clock ≤ (apply s o).clock := b
   | fail m => simp only [apply]; rw [fail_spec]; exact localOp_clock _ _ s m
   | refute m i => simp only [apply]; rw [refute_spec]; exact localOp_clock _ _ s m
   | markHealthy m => simp only [apply]; rw [markHealthy_spec]; exact localOp_clock _ _ s m
+  | tick => exact Nat.le_succ _
+  | syncTime t => simp only [apply, syncTime]; omega
 
 theorem clock_monotone_run (s : State) (ops : List Op) : s.clock ≤ (run s ops).clock := by
   induction ops generalizing s with
@@ -147,6 +150,8 @@ theorem inc_monotone (s : State) (o : Op) (hok : OpOk s o) (m : Nat) (e : Reg) (
   | fail m' => simp only [apply]; rw [fail_spec]; exact localOp_inc freshOk_fail s m' m e h
   | refute m' i => simp only [apply]; rw [refute_spec]; exact localOp_inc (freshOk_refute i) s m' m e h
   | markHealthy m' => simp only [apply]; rw [markHealthy_spec]; exact localOp_inc freshOk_markHealthy s m' m e h
+  | tick => exact ⟨e, h, Nat.le_refl _⟩
+  | syncTime t => exact ⟨e, h, Nat.le_refl _⟩
 
 theorem inc_monotone_run (s : State) (ops : List Op) (hadm : Admissible s ops) (m : Nat) (e : Reg)
     (h : s.regs m = some e) : ∃ e', (run s ops).regs m = some e' ∧ e.inc ≤ e'.inc := by
@@ -482,6 +487,8 @@ theorem local_event_survives_redelivery (ops : List Op) (hadm : Admissible State
     simp only [emitted] at hsucc; rw [markHealthy_spec] at hsucc
     obtain ⟨e, _, _, hr, _⟩ := localOp_emitted _ _ hsucc
     exact ⟨_, hr, rfl, rfl, (key trivial).trans hr⟩
+  | tick => simp [localTarget] at ht
+  | syncTime t => simp [localTarget] at ht
 
 -- non-vacuity (the seeded scenario on the real merge): a batch whose head is not its newest
 -- entry, a successful local `fail`, then the same batch again in the other order plus a late
